@@ -1090,6 +1090,27 @@ UNDO_DELEGATIONS = [
 ]
 
 
+GC_DELEGATIONS = [
+    ("yrs::gc::GCCollector::collect", r"GCCollector::mark_in_scope$", {1: "txn.store", 2: "None{}", 3: "txn.delete_set"}, None),
+    ("yrs::gc::GCCollector::collect", r"GCCollector::collect_marked$", {1: "txn"}, None),
+    ("yrs::gc::GCCollector::collect_all", r"GCCollector::mark_in_scope$", {1: "txn.store", 2: "Some{txn.merge_blocks}", 3: "delete_set"}, None),
+    ("yrs::gc::GCCollector::collect_all", r"GCCollector::mark_all$", {1: "txn"}, None),
+    ("yrs::gc::GCCollector::collect_all", r"GCCollector::collect_marked$", {1: "txn"}, None),
+    ("yrs::gc::GCCollector::mark", r"HashMap::entry$", {0: "self.marked", 1: "id.client"}, None),
+    ("yrs::gc::GCCollector::mark", r"Vec::push$", {1: "id.clock"}, None),
+    ("yrs::gc::GCCollector::mark_all", r"Item::gc$", {1: "self", 2: "0"}, "is_deleted"),
+]
+
+AWARENESS_DELEGATIONS = [
+    ("yrs::sync::awareness::Awareness::clean_local_state", r"Awareness::remove_state$", {0: "self", 1: "Doc::client_id(self.doc)"}, None),
+    ("yrs::sync::awareness::Awareness::local_state_raw", r"DashMap::get$", {0: "self.states", 1: "Doc::client_id(self.doc)"}, None),
+    ("yrs::sync::awareness::Awareness::meta", r"DashMap::get$", {0: "self.states", 1: "client_id"}, None),
+    ("yrs::sync::awareness::Awareness::state", r"DashMap::get$", {0: "self.states", 1: "client_id"}, None),
+    ("yrs::sync::awareness::Awareness::set_local_state", r"Awareness::set_local_state_raw$", {0: "self", 1: ("has", "serde_json::to_string(state)")}, None),
+    ("yrs::sync::awareness::Awareness::iter", r"DashMap::iter$", {0: "self.states"}, None),
+]
+
+
 def api_delegations(R, ctx, rid, table=None, what=None):
     """R-PROV the public methods of the shared types hand their own arguments on."""
     from .accessors import _canon
